@@ -41,7 +41,12 @@ func checkEncode(r *ev.Run, c *ev.Case, k *keyid.KeyID) {
 	r.Eval(1)
 	var text string
 	var err error
+	given := show(k)
 	if r.Guard(c, "Marshal", caseRec{KeyID: k, What: "encode"}, func() { text, err = k.Marshal() }) {
+		return
+	}
+	if now := show(k); now != given {
+		r.Violation(c, "encoder-changes-the-value-it-was-given", fmt.Sprintf("before Marshal: %s\nafter Marshal:  %s", given, now), caseRec{KeyID: k, What: "encode"})
 		return
 	}
 	want := valid(k)
